@@ -956,6 +956,10 @@ def should_diag(c, rec):
 def known_finding(c, rec, ns_eval):
     """-> finding id when the failing case falls under a recorded guard clause AND the
     implementation behaves as the faithful description predicts; else None"""
+    if c[0] == "narrow" and c[1] == "callable" and callable(ns_eval(c[2])):
+        # after a true callable(x) a known class is replaced by the type Callable[..., Any]: its attributes and its
+        # subscripting are then judged on that type, not on the object
+        return "C19-callable-narrowing-forgets-known-object"
     if c[0] == "narrow":
         # the operation itself, with the variable replaced by the operand it holds
         op = tuple(c[2] if (isinstance(x, str) and x == "x") else x for x in c[5])
